@@ -73,6 +73,12 @@ __attribute__((noinline)) void scribble(void *trap) {
 }
 
 int g_kind = 0, g_args = 0;
+int g_payload = 0;   // written by the callable of the "poll" scenario, read by the starter after isFinished() turned true
+
+void fn_payload() {
+    body(true, 4);
+    g_payload = 42;
+}
 
 template <class C>
 void start_with(tulz::Thread &t, C callable, int &a, int &b) {
@@ -83,7 +89,32 @@ void start_with(tulz::Thread &t, C callable, int &a, int &b) {
     ev("StartRet");
 }
 
+// the starter relies on isFinished() alone (no join) before it reads what the callable produced
+void scenario_poll() {
+    tulz::Thread t;
+    g_thread = &t;
+    g_payload = 0;
+    vs::yield("begin");
+    ev("StartCall");
+    t.start(&fn_payload);
+    ev("StartRet");
+    for (;;) {
+        vs::yield("poll");
+        if (t.isFinished()) break;
+    }
+    int v = g_payload;
+    ev("Payload", v);
+    t.join();
+    ev("JoinRet", t.isFinished() ? 1 : 0, 0);
+    g_thread = nullptr;
+    ev("Done");
+}
+
 void scenario() {
+    if (g_kind == 4) {
+        scenario_poll();
+        return;
+    }
     tulz::Thread t;
     g_thread = &t;
     int a = 0, b = 0;
@@ -143,7 +174,10 @@ public:
         finish_pending_step(tv);
         ev("Deadlock");
     }
-    void on_abort(int) override { out().flush(); }
+    void on_abort(int) override {
+        for (auto &r : vs::race_reports()) out().raw("\"e\":\"Race\"," + r);
+        out().flush();
+    }
     void too_long() override { ev("TooLong"); }
 };
 
@@ -171,7 +205,9 @@ void run_exec(const Execution &ex) {
         ctl.rng = vs::Rng((uint64_t) ex.cfg.num("seed", 1));
     }
     ev("Begin", g_kind, g_args);
+    out().line("\"e\":\"PayloadAddr\",\"addr\":\"0x%lx\"", (unsigned long) (uintptr_t) &g_payload);
     vs::run(ctl, scenario);
+    for (auto &r : vs::race_reports()) out().raw("\"e\":\"Race\"," + r);
 }
 
 }  // namespace
